@@ -262,6 +262,10 @@ func wlCellEvents(id int, sc Scenario, seed int64, pre *spg.WLRecipe, preWL *spg
 			ev.Rej += d.Rej
 			prod.Mul(prod, big.NewInt(int64(d.N)))
 		}
+		ev.ND = len(ev.D)
+		if len(ev.D) > 1200 {
+			ev.D, ev.Trunc = ev.D[:1200], 1
+		}
 		if out.Unstable || out.NoRep {
 			cell.Unstable = 1
 		}
